@@ -140,6 +140,21 @@ def convert(text, root, prefix='', uri=DEFAULT_URI, parser=None):
     return {'xml': canon(x), 'etree': x}
 
 
+def convert_via_dict(text, root, prefix='', uri=DEFAULT_URI, parser=None):
+    """The documented three-step path on one parser object: parse(), to_dict() serialised and reloaded, xml_from_dict()."""
+    import json as _json
+    p = parser or make_parser(uri, prefix)
+    try:
+        tree = p.parse(text, root)
+        d = _json.loads(_json.dumps(tree.to_dict()))
+        x = p.generator.xml_from_dict(d, getattr(tree, 'is_root', False))
+    except RecursionError:
+        return {'exc': 'RecursionError', 'msg': ''}
+    except Exception as ex:  # noqa
+        return classify_exc(ex)
+    return {'xml': canon(x), 'etree': x}
+
+
 def strip_etree(r):
     return {k: v for k, v in r.items() if k != 'etree'}
 
